@@ -621,6 +621,14 @@ func WaitIdle(site string) {
 	t.park()
 }
 
+// Parked reports whether the task is parked on a simulator-level primitive (mutex, cond, waitgroup).
+func (t *Task) Parked() bool {
+	s := must()
+	s.mu.Lock()
+	defer s.mu.Unlock()
+	return t.state == stParked
+}
+
 // Sleep lets simulated time pass for the calling task.
 func Sleep(d time.Duration, site string) {
 	t := Pre(site)
